@@ -76,6 +76,7 @@ type x06Hist struct {
 	Sc    x06Sc     `json:"sc"`
 	Steps []x06Step `json:"steps"`
 	Front string    `json:"front,omitempty"` // "plain" | "tls" | "h2"; chosen by the harness when empty
+	Up    string    `json:"up,omitempty"`    // "tcp" | "tls" (proto=https tlsskipverify=true); chosen by the harness when empty
 	N     int64     `json:"n,omitempty"`
 }
 
@@ -138,6 +139,7 @@ type x06Run struct {
 	// upstream side
 	ureq     int
 	upConn   net.Conn
+	upRaw    net.Conn // the TCP connection under upConn
 	upClosed bool  // the upstream's read side has ended (the proxy closed the connection)
 	upExtra  int64 // bytes received after the request head
 	upReqHdr http.Header
@@ -240,6 +242,7 @@ type x06World struct {
 	oldLog io.Writer
 	seq    int64
 	plumb  int64
+	cert   []tls.Certificate
 }
 
 type x06LogSink struct{ w *x06World }
@@ -338,6 +341,7 @@ func x06NewWorld(t *testing.T) *x06World {
 				}
 				fr.plain.Start()
 				fr.tls.StartTLS()
+				w.cert = fr.tls.TLS.Certificates
 				w.fronts[k] = fr
 			}
 		}
@@ -362,6 +366,7 @@ func (w *x06World) close() {
 
 type x06Target struct {
 	addr string
+	tls  *tls.Config // the upstream speaks TLS (route option proto=https tlsskipverify=true)
 	ln   net.Listener
 	fd   int // refused target: a bound socket that does not listen
 	cur  atomic.Pointer[x06Run]
@@ -387,12 +392,12 @@ func x06Refuser() (*x06Target, error) {
 	return &x06Target{addr: fmt.Sprintf("127.0.0.1:%d", sa.(*syscall.SockaddrInet4).Port), fd: fd}, nil
 }
 
-func x06Listen() (*x06Target, error) {
+func x06Listen(tc *tls.Config) (*x06Target, error) {
 	ln, err := net.Listen("tcp4", "127.0.0.1:0")
 	if err != nil {
 		return nil, err
 	}
-	t := &x06Target{addr: ln.Addr().String(), ln: ln, fd: -1}
+	t := &x06Target{addr: ln.Addr().String(), ln: ln, fd: -1, tls: tc}
 	go t.acceptLoop()
 	return t, nil
 }
@@ -415,7 +420,18 @@ func (t *x06Target) acceptLoop() {
 	}
 }
 
-func (t *x06Target) serve(c net.Conn) {
+func (t *x06Target) serve(raw net.Conn) {
+	c := raw
+	if t.tls != nil {
+		tc := tls.Server(raw, t.tls)
+		raw.SetDeadline(time.Now().Add(20 * time.Second))
+		if err := tc.Handshake(); err != nil {
+			raw.Close()
+			return
+		}
+		raw.SetDeadline(time.Time{})
+		c = tc
+	}
 	br := bufio.NewReader(c)
 	for {
 		req, err := http.ReadRequest(br)
@@ -440,7 +456,7 @@ func (t *x06Target) serve(c net.Conn) {
 		run.set(func() {
 			run.ureq++
 			if run.upConn == nil {
-				run.upConn = c
+				run.upConn, run.upRaw = c, raw
 				run.upReqHdr = req.Header
 			}
 		})
@@ -540,14 +556,16 @@ func (r *x06Run) upChunk(k int) error {
 
 func (r *x06Run) upClose(reset bool) {
 	r.mu.Lock()
-	c := r.upConn
+	c, raw := r.upConn, r.upRaw
 	r.upSelf = true
 	r.mu.Unlock()
 	if c == nil {
 		return
 	}
-	if tc, ok := c.(*net.TCPConn); ok && reset {
+	if tc, ok := raw.(*net.TCPConn); ok && reset {
 		tc.SetLinger(0)
+		raw.Close()
+		return
 	}
 	c.Close()
 }
@@ -687,6 +705,45 @@ type x06Fault struct {
 	Step   int
 	Msg    string
 	Timed  bool // the fault is a missed deadline
+}
+
+func x06N(h *x06Hist) int64 {
+	if h.N != 0 {
+		return h.N
+	}
+	b, _ := json.Marshal(h)
+	return int64((verifx.Hash(b)^uint64(verifx.Seed())*0x9e3779b97f4a7c15)>>1) | 1
+}
+
+// x06ChooseUp: a quarter of the exchanges go to an upstream that speaks TLS
+func x06ChooseUp(h *x06Hist, n int64) string {
+	if h.Up != "" {
+		return h.Up
+	}
+	if (uint64(n)>>9)%4 == 0 {
+		return "tls"
+	}
+	return "tcp"
+}
+
+func (w *x06World) target(h *x06Hist, up string, i int) (*x06Target, string, error) {
+	var tg *x06Target
+	var err error
+	switch {
+	case h.Sc.Refuse:
+		tg, err = x06Refuser()
+	case up == "tls":
+		tg, err = x06Listen(&tls.Config{Certificates: w.cert})
+	default:
+		tg, err = x06Listen(nil)
+	}
+	if err != nil {
+		return nil, "", err
+	}
+	if up == "tls" {
+		return tg, fmt.Sprintf("route add x06-%d /x06/%d/ https://%s/ opts \"tlsskipverify=true\"", i, i, tg.addr), nil
+	}
+	return tg, fmt.Sprintf("route add x06-%d /x06/%d/ http://%s/", i, i, tg.addr), nil
 }
 
 func x06ChooseFront(h *x06Hist, n int64) string {
@@ -966,7 +1023,7 @@ func x06Features(h *x06Hist, front string, f x06Fault) map[string]any {
 	if h.Sc.Sse {
 		eff = h.Sc.F
 	}
-	return map[string]any{"sub": "replay", "clause": f.Clause, "eff": eff, "sse": h.Sc.Sse, "fr": h.Sc.Fr, "front": front}
+	return map[string]any{"sub": "replay", "clause": f.Clause, "eff": eff, "sse": h.Sc.Sse, "fr": h.Sc.Fr, "front": front, "up": h.Up}
 }
 
 // ---------------------------------------------------------------- entry point
@@ -982,7 +1039,7 @@ func TestVerifX06Replay(t *testing.T) {
 	workers := verifx.EnvInt("VERIF_WORKERS", 12)
 	const batch = 768
 	var ran, retried, steps, timedOut, skipped, bytesMoved int64
-	var noLog, log499, logOther int64
+	var noLog, log499, logOther, upTLS int64
 	byFront := map[string]*int64{"plain": new(int64), "tls": new(int64), "h2": new(int64)}
 	classes := sync.Map{}
 	var samples []string
@@ -996,18 +1053,14 @@ func TestVerifX06Replay(t *testing.T) {
 		tgs := make([]*x06Target, end-base)
 		var cmds []string
 		for i := base; i < end; i++ {
-			var tg *x06Target
-			var err error
-			if hs[i].Sc.Refuse {
-				tg, err = x06Refuser()
-			} else {
-				tg, err = x06Listen()
-			}
+			n := x06N(&hs[i])
+			hs[i].N, hs[i].Front, hs[i].Up = n, x06ChooseFront(&hs[i], n), x06ChooseUp(&hs[i], n)
+			tg, cmd, err := w.target(&hs[i], hs[i].Up, i)
 			if err != nil {
 				t.Fatal(err)
 			}
 			tgs[i-base] = tg
-			cmds = append(cmds, fmt.Sprintf("route add x06-%d /x06/%d/ http://%s/", i, i, tg.addr))
+			cmds = append(cmds, cmd)
 		}
 		tbl, err := route.NewTable(bytes.NewBufferString(strings.Join(cmds, "\n")))
 		if err != nil {
@@ -1026,12 +1079,10 @@ func TestVerifX06Replay(t *testing.T) {
 				defer wg.Done()
 				for i := range jobs {
 					h := &hs[i]
-					n := h.N
-					if n == 0 {
-						b, _ := json.Marshal(h)
-						n = int64((verifx.Hash(b) ^ uint64(verifx.Seed())*0x9e3779b97f4a7c15) >> 1)
+					n, front := h.N, h.Front
+					if h.Up == "tls" {
+						atomic.AddInt64(&upTLS, 1)
 					}
-					front := x06ChooseFront(h, n)
 					if atomic.LoadInt64(&timedOut) > 40 {
 						atomic.AddInt64(&skipped, 1) // enough missed deadlines to report; do not sit out the rest
 						continue
@@ -1085,7 +1136,6 @@ func TestVerifX06Replay(t *testing.T) {
 							atomic.AddInt64(&timedOut, 1)
 						}
 						hh := *h
-						hh.Front, hh.N = front, n
 						verifx.Fail(hh, x06Features(h, front, f), "%s\n  scenario: %s", f.Msg, x06Describe(h))
 					}
 					if n%211 == 3 {
@@ -1106,7 +1156,7 @@ func TestVerifX06Replay(t *testing.T) {
 	var nolog []string
 	classes.Range(func(k, _ any) bool { nolog = append(nolog, k.(string)); return true })
 	verifx.Summary(map[string]any{"histories": len(hs), "ran": ran, "steps": steps, "retried": retried, "skipped": skipped,
-		"plain": *byFront["plain"], "tls": *byFront["tls"], "h2": *byFront["h2"], "body_bytes": bytesMoved,
+		"plain": *byFront["plain"], "tls": *byFront["tls"], "h2": *byFront["h2"], "body_bytes": bytesMoved, "up_tls": upTLS,
 		"plumbing": atomic.LoadInt64(&w.plumb), "samples": samples,
 		"log_none": noLog, "log_499": log499, "log_other": logOther, "log_none_classes": nolog})
 }
@@ -1120,8 +1170,8 @@ func x06Describe(h *x06Hist) string {
 	if h.Sc.Sse {
 		acc = "text/event-stream"
 	}
-	return fmt.Sprintf("flushinterval=%s globalflushinterval=%s Accept=%s upstream framing=%s content-type=%s chunks=%v refuse=%v rht=%v steps=%s",
-		h.Sc.F, h.Sc.G, acc, h.Sc.Fr, h.Sc.Ct, h.Sc.Sz, h.Sc.Refuse, h.Sc.Rht, strings.Join(st, ","))
+	return fmt.Sprintf("flushinterval=%s globalflushinterval=%s Accept=%s upstream=%s framing=%s content-type=%s chunks=%v refuse=%v rht=%v steps=%s",
+		h.Sc.F, h.Sc.G, acc, h.Up, h.Sc.Fr, h.Sc.Ct, h.Sc.Sz, h.Sc.Refuse, h.Sc.Rht, strings.Join(st, ","))
 }
 
 // ---------------------------------------------------------------- C->S: free-running exchanges, recorded
@@ -1146,7 +1196,7 @@ func (w *x06World) free(h *x06Hist, tg *x06Target, idx int, front string) []map[
 	sc, _ := json.Marshal(h.Sc)
 	var scm map[string]any
 	json.Unmarshal(sc, &scm)
-	r.ev(map[string]any{"ev": "Reset", "sc": scm, "front": front})
+	r.ev(map[string]any{"ev": "Reset", "sc": scm, "front": front, "up": h.Up})
 	other := false
 	for _, st := range h.Steps {
 		if st.A == "Other" {
@@ -1194,19 +1244,15 @@ func TestVerifX06Free(t *testing.T) {
 	tgs := make([]*x06Target, len(hs))
 	var cmds []string
 	for i := range hs {
-		var tg *x06Target
-		var err error
-		if hs[i].Sc.Refuse {
-			tg, err = x06Refuser()
-		} else {
-			tg, err = x06Listen()
-		}
+		n := x06N(&hs[i])
+		hs[i].N, hs[i].Front, hs[i].Up = n, x06ChooseFront(&hs[i], n), x06ChooseUp(&hs[i], n)
+		tg, cmd, err := w.target(&hs[i], hs[i].Up, i)
 		if err != nil {
 			t.Fatal(err)
 		}
 		tgs[i] = tg
 		defer tg.close()
-		cmds = append(cmds, fmt.Sprintf("route add x06-%d /x06/%d/ http://%s/", i, i, tg.addr))
+		cmds = append(cmds, cmd)
 	}
 	tbl, err := route.NewTable(bytes.NewBufferString(strings.Join(cmds, "\n")))
 	if err != nil {
@@ -1226,9 +1272,7 @@ func TestVerifX06Free(t *testing.T) {
 		go func() {
 			defer wg.Done()
 			for i := range jobs {
-				b, _ := json.Marshal(&hs[i])
-				n := int64((verifx.Hash(b) ^ uint64(verifx.Seed())*0x9e3779b97f4a7c15) >> 1)
-				traces[i] = w.free(&hs[i], tgs[i], i, x06ChooseFront(&hs[i], n))
+				traces[i] = w.free(&hs[i], tgs[i], i, hs[i].Front)
 				if traces[i] == nil {
 					atomic.AddInt64(&unsettled, 1)
 				}
@@ -1269,7 +1313,7 @@ func TestVerifX06Probe(t *testing.T) {
 	defer transport.SetConfig(&config.Config{})
 	w := x06NewWorld(t)
 	defer w.close()
-	tg, err := x06Listen()
+	tg, err := x06Listen(nil)
 	if err != nil {
 		t.Fatal(err)
 	}
